@@ -10,7 +10,9 @@ def run(chk):
                 "shift, e size, other session); invariant Authentic. Replay: a cheating prover written in the harness with math/big (it knows the "
                 "credential and the group order) assembles every emitted abstract proof for real on both 1024-bit keys and submits it to "
                 "ProofD.Verify and ProofList.Verify; VIOLATION = acceptance of a proof that reports an unsigned value, an index both disclosed and hidden, "
-                "or an out-of-range response (decided on the concrete proof by the harness), or rejection of the honest proof. Exact size boundaries "
+                "or an out-of-range response (decided on the concrete proof by the harness), or rejection of the honest proof. Every proof is judged twice: in a "
+                "fresh ProofD object and in an object that held an honest proof of the library's prover, was verified (accepted) and then overwritten field by "
+                "field - the verdict must be a function of the content, not of the object's history (memoised validation). Exact size boundaries "
                 "are exercised through ProofD.VerifyWithChallenge. Non-trivial = distinct deviating abstract proof.")
     chk.assumptions = ["generic group / random oracle idealisation in the model (strong RSA and SHA-256 not attacked)",
                        "HashCommit is used by the harness' prover to compute challenges (its encoding is C15's subject)",
